@@ -60,11 +60,11 @@ class TemporaryPhase:
         
     def __enter__(self):
         stream = self.stream
-        stream._phase._phase = self.temporary
+        stream._imol._phase._phase = self.temporary
         return stream
     
     def __exit__(self, type, exception, traceback):
-        self.stream._phase._phase = self.original
+        self.stream._imol._phase._phase = self.original
         if exception: raise exception
    
     
